@@ -21,7 +21,7 @@ PROPERTY = {
              "between operations: the models are generated specs that deliberately share operator names (different "
              "equations / different defaults / identical structure), node-template names, generated file and function "
              "names, and optionally the very same template objects (sibling circuit). Up to 9 operations: (re)construct, "
-             "get_run_func (backends default/torch/jax/fortran), get_jacobian_func, run (vectorize on/off, in_place True/False, clear True/False, one of two "
+             "get_run_func (backends default/torch/jax/fortran), get_jacobian_func, run (vectorize on/off, in_place True/False, clear True/False, with/without an extrinsic input, one of two "
              "file names), update_var (node and edge), to_yaml + from_yaml (one file name for all models), clear(), clear_frontend_caches(), each addressed to one model. Oracle: every "
              "result observed for a model in the history (y0, argument values by name, vector field at y0, run rows, "
              "Jacobian at y0) must equal the result of the same operation when only that model's own operations are "
@@ -134,7 +134,12 @@ class ModelRunner:
             self.kept.append((comp, out.copy()))
             return obs
         if k == "run":
-            df = c.run(simulation_time=4 * DT, step_size=DT, outputs=self._outputs(), solver="euler", vectorize=vec,
+            kw = {}
+            ins = sorted(p for p, kd in self.rm.kind.items() if kd == "input")
+            if op.get("inp") and ins:
+                # extrinsic input (the generated input operators are numbered by a process-wide label cache)
+                kw["inputs"] = {ins[op["i"] % len(ins)]: np.array([0.3, -0.2, 0.5, 0.1])}
+            df = c.run(simulation_time=4 * DT, step_size=DT, outputs=self._outputs(), solver="euler", vectorize=vec, **kw,
                        verbose=False, clear=bool(op.get("clear")), in_place=bool(op.get("in_place")),
                        float_precision="float64", file_name=op.get("file", "pv_gen_a"),
                        backend=op.get("backend", "default") if op.get("backend") != "fortran" else "default")
@@ -343,6 +348,7 @@ def op_strategy(it):
                                "clear", "clear_frontend_caches", "yaml_roundtrip"]),
         "backend": st.sampled_from(["default"] * 5 + ["torch", "jax", "fortran", "fortran"]),
         "m": st.integers(0, 2), "vectorize": st.booleans(), "in_place": st.booleans(), "clear": st.booleans(),
+        "inp": st.sampled_from([False, False, True]),
         "file": st.sampled_from(["pv_gen_a", "pv_gen_a", "pv_gen_b"]), "fname": st.sampled_from(["pv_f", "pv_g"]),
         "i": st.integers(0, 20), "val": st.sampled_from([0.37, -0.62, 1.45])})
 
